@@ -47,33 +47,38 @@ RECURSIVE DigitsEnd(_, _)
 DigitsEnd(t, j) == IF IsDigit(At(t, j)) THEN DigitsEnd(t, j + 1) ELSE j
 RECURSIVE DecNat(_, _, _, _)
 DecNat(t, i, j, acc) == IF i > j THEN acc ELSE DecNat(t, i + 1, j, 10 * acc + (t[i] - 48))
-(* the JSON number token starting at i: [ok, next, num] *)
+(* the JSON number token starting at i: [ok, next, num].  Written as a chain of operators that pass their        *)
+(* intermediate positions as parameters (TLC's coverage pass re-expands every use of a LET definition).            *)
 NumFail == [ok |-> FALSE, next |-> 0, num |-> BadNum]
-NumTok(t, i) ==
-    LET neg == At(t, i) = 45
-        i1 == IF neg THEN i + 1 ELSE i
-        iend == IF At(t, i1) = 48 THEN i1 + 1 ELSE IF IsDigit(At(t, i1)) THEN DigitsEnd(t, i1) ELSE 0
-    IN IF iend = 0 THEN NumFail
-       ELSE
-       LET hasfrac == At(t, iend) = 46
-           fend == IF ~hasfrac THEN iend ELSE IF IsDigit(At(t, iend + 1)) THEN DigitsEnd(t, iend + 1) ELSE 0
-       IN IF fend = 0 THEN NumFail
-          ELSE
-          LET hasexp == At(t, fend) \in {101, 69}
-              esign == At(t, fend + 1) \in {43, 45}
-              d0 == IF esign THEN fend + 2 ELSE fend + 1
-              eend == IF ~hasexp THEN fend ELSE IF IsDigit(At(t, d0)) THEN DigitsEnd(t, d0) ELSE 0
-          IN IF eend = 0 \/ (hasexp /\ eend - d0 > 5) THEN NumFail
-             ELSE
-             LET ev == IF ~hasexp THEN 0 ELSE (IF At(t, fend + 1) = 45 THEN -1 ELSE 1) * DecNat(t, d0, eend - 1, 0)
-                 D == [k \in 1..((iend - i1) + (IF hasfrac THEN fend - iend - 1 ELSE 0)) |->
-                          IF k <= iend - i1 THEN t[i1 + k - 1] - 48 ELSE t[iend + 1 + (k - (iend - i1)) - 1] - 48]
-                 nz == {k \in 1..Len(D) : D[k] # 0}
-             IN IF nz = {} THEN [ok |-> TRUE, next |-> eend, num |-> ZeroNum]
-                ELSE LET lo == CHOOSE k \in nz : \A m \in nz : k <= m
-                         hi == CHOOSE k \in nz : \A m \in nz : k >= m
-                     IN [ok |-> TRUE, next |-> eend,
-                         num |-> <<IF neg THEN 1 ELSE 0, SubSeq(D, lo, hi), (iend - i1) + ev - (lo - 1)>>]
+(* digits D (integer part of length ilen first), decimal exponent ev, token ends before `next` *)
+NumNorm(neg, D, ilen, ev, next) ==
+    LET nz == {k \in 1..Len(D) : D[k] # 0} IN
+    IF nz = {} THEN [ok |-> TRUE, next |-> next, num |-> ZeroNum]
+    ELSE LET lo == CHOOSE k \in nz : \A m \in nz : k <= m
+             hi == CHOOSE k \in nz : \A m \in nz : k >= m
+         IN [ok |-> TRUE, next |-> next, num |-> <<IF neg THEN 1 ELSE 0, SubSeq(D, lo, hi), ilen + ev - (lo - 1)>>]
+(* i1: first digit, iend: after the integer part, fend: after the fraction, d0: first exponent digit, eend: end *)
+NumFin(t, neg, i1, iend, fend, d0, eend) ==
+    IF eend = 0 \/ eend - d0 > 5 THEN NumFail
+    ELSE NumNorm(neg,
+                 [k \in 1..((iend - i1) + (IF fend > iend THEN fend - iend - 1 ELSE 0)) |->
+                     IF k <= iend - i1 THEN t[i1 + k - 1] - 48 ELSE t[iend + (k - (iend - i1))] - 48],
+                 iend - i1,
+                 IF eend = fend THEN 0 ELSE (IF At(t, fend + 1) = 45 THEN -1 ELSE 1) * DecNat(t, d0, eend - 1, 0),
+                 eend)
+NumExp(t, neg, i1, iend, fend) ==
+    IF fend = 0 THEN NumFail
+    ELSE IF At(t, fend) \notin {101, 69} THEN NumFin(t, neg, i1, iend, fend, fend, fend)
+    ELSE IF At(t, fend + 1) \in {43, 45}
+         THEN NumFin(t, neg, i1, iend, fend, fend + 2, IF IsDigit(At(t, fend + 2)) THEN DigitsEnd(t, fend + 2) ELSE 0)
+         ELSE NumFin(t, neg, i1, iend, fend, fend + 1, IF IsDigit(At(t, fend + 1)) THEN DigitsEnd(t, fend + 1) ELSE 0)
+NumFrac(t, neg, i1, iend) ==
+    IF iend = 0 THEN NumFail
+    ELSE IF At(t, iend) # 46 THEN NumExp(t, neg, i1, iend, iend)
+    ELSE NumExp(t, neg, i1, iend, IF IsDigit(At(t, iend + 1)) THEN DigitsEnd(t, iend + 1) ELSE 0)
+NumInt(t, neg, i1) ==
+    NumFrac(t, neg, i1, IF At(t, i1) = 48 THEN i1 + 1 ELSE IF IsDigit(At(t, i1)) THEN DigitsEnd(t, i1) ELSE 0)
+NumTok(t, i) == IF At(t, i) = 45 THEN NumInt(t, TRUE, i + 1) ELSE NumInt(t, FALSE, i)
 (* a whole ASCII string as a numeral (the harness' printf renderings); BadNum if it is not a number *)
 Numeral(s) == LET r == NumTok(s, 1) IN IF r.ok /\ r.next = Len(s) + 1 THEN r.num ELSE BadNum
 SigDigits(num) == Len(num[2])
@@ -95,74 +100,93 @@ Utf8(cp) == IF cp < 128 THEN <<cp>>
             ELSE IF cp < 65536 THEN <<224 + (cp \div 4096), 128 + ((cp \div 64) % 64), 128 + (cp % 64)>>
             ELSE <<240 + (cp \div 262144), 128 + ((cp \div 4096) % 64), 128 + ((cp \div 64) % 64), 128 + (cp % 64)>>
 PFail == [ok |-> FALSE, next |-> 0, v |-> Empty]
+(* one step of a string body at position i: [ok, n = characters consumed, bytes = bytes produced]; the closing    *)
+(* quote is n = 0                                                                                              *)
+StrStep(t, i) ==
+    LET c == At(t, i)
+        e == At(t, i + 1)
+        u == Hex4(t, i)
+        w == Hex4(t, i + 6)
+        Bad == [ok |-> FALSE, n |-> 0, bytes |-> <<>>]
+        Got(n, bytes) == [ok |-> TRUE, n |-> n, bytes |-> bytes]
+    IN IF c = 34 THEN Got(0, <<>>)
+       ELSE IF c < 32 THEN Bad                                            \* end of text or a raw control character
+       ELSE IF c # 92 THEN Got(1, <<c>>)
+       ELSE IF e \in {34, 92, 47} THEN Got(2, <<e>>)
+       ELSE IF e = 98 THEN Got(2, <<8>>)
+       ELSE IF e = 102 THEN Got(2, <<12>>)
+       ELSE IF e = 110 THEN Got(2, <<10>>)
+       ELSE IF e = 114 THEN Got(2, <<13>>)
+       ELSE IF e = 116 THEN Got(2, <<9>>)
+       ELSE IF e # 117 \/ u < 0 THEN Bad
+       ELSE IF u >= 56320 /\ u <= 57343 THEN Bad                          \* lone low surrogate
+       ELSE IF u >= 55296 /\ u <= 56319
+            THEN (IF w < 56320 \/ w > 57343 THEN Bad                      \* high surrogate without its partner
+                  ELSE Got(12, Utf8(65536 + (u - 55296) * 1024 + (w - 56320))))
+       ELSE Got(6, Utf8(u))
 (* string body: i is the position after the opening quote *)
 RECURSIVE StrLoop(_, _, _)
 StrLoop(t, i, acc) ==
-    LET c == At(t, i) IN
-    IF c = 34 THEN [ok |-> TRUE, next |-> i + 1, v |-> V("str", acc)]
-    ELSE IF c < 32 THEN PFail                                            \* end of text or a raw control character
-    ELSE IF c # 92 THEN StrLoop(t, i + 1, Append(acc, c))
-    ELSE LET e == At(t, i + 1) IN
-         IF e \in {34, 92, 47} THEN StrLoop(t, i + 2, Append(acc, e))
-         ELSE IF e = 98 THEN StrLoop(t, i + 2, Append(acc, 8))
-         ELSE IF e = 102 THEN StrLoop(t, i + 2, Append(acc, 12))
-         ELSE IF e = 110 THEN StrLoop(t, i + 2, Append(acc, 10))
-         ELSE IF e = 114 THEN StrLoop(t, i + 2, Append(acc, 13))
-         ELSE IF e = 116 THEN StrLoop(t, i + 2, Append(acc, 9))
-         ELSE IF e # 117 THEN PFail
-         ELSE LET u == Hex4(t, i) IN
-              IF u < 0 THEN PFail
-              ELSE IF u >= 56320 /\ u <= 57343 THEN PFail                 \* lone low surrogate
-              ELSE IF u >= 55296 /\ u <= 56319
-                   THEN LET w == Hex4(t, i + 6) IN
-                        IF w < 56320 \/ w > 57343 THEN PFail              \* high surrogate without its partner
-                        ELSE StrLoop(t, i + 12, acc \o Utf8(65536 + (u - 55296) * 1024 + (w - 56320)))
-              ELSE StrLoop(t, i + 6, acc \o Utf8(u))
+    LET s == StrStep(t, i) IN
+    IF ~s.ok THEN PFail
+    ELSE IF s.n = 0 THEN [ok |-> TRUE, next |-> i + 1, v |-> V("str", acc)]
+    ELSE StrLoop(t, i + s.n, acc \o s.bytes)
 Lit(t, i, w) == i + Len(w) - 1 <= Len(t) /\ SubSeq(t, i, i + Len(w) - 1) = w
-RECURSIVE PValue(_, _), PElems(_, _, _), PMembers(_, _, _)
+(* Recursive descent.  Intermediate results travel as operator parameters, not LET definitions (see NumTok). *)
+Ok(next, v) == [ok |-> TRUE, next |-> next, v |-> v]
+NumVal(r) == IF r.ok THEN Ok(r.next, V("num", r.num)) ELSE PFail
+RECURSIVE PValue(_, _), PElems(_, _, _), PElemsK(_, _, _), PElemsJ(_, _, _, _),
+          PMembers(_, _, _), PMemK(_, _, _), PMemC(_, _, _, _), PMemV(_, _, _, _), PMemE(_, _, _, _, _)
 PValue(t, i) ==
-    LET c == At(t, i) IN
-    IF c = 123 THEN LET j == SkipWs(t, i + 1) IN
-                    IF At(t, j) = 125 THEN [ok |-> TRUE, next |-> j + 1, v |-> V("obj", <<>>)] ELSE PMembers(t, j, <<>>)
-    ELSE IF c = 91 THEN LET j == SkipWs(t, i + 1) IN
-                        IF At(t, j) = 93 THEN [ok |-> TRUE, next |-> j + 1, v |-> V("arr", <<>>)] ELSE PElems(t, j, <<>>)
-    ELSE IF c = 34 THEN StrLoop(t, i + 1, <<>>)
-    ELSE IF c = 116 THEN (IF Lit(t, i, <<116, 114, 117, 101>>) THEN [ok |-> TRUE, next |-> i + 4, v |-> V("bool", <<1>>)] ELSE PFail)
-    ELSE IF c = 102 THEN (IF Lit(t, i, <<102, 97, 108, 115, 101>>) THEN [ok |-> TRUE, next |-> i + 5, v |-> V("bool", <<0>>)] ELSE PFail)
-    ELSE IF c = 110 THEN (IF Lit(t, i, <<110, 117, 108, 108>>) THEN [ok |-> TRUE, next |-> i + 4, v |-> VNull] ELSE PFail)
-    ELSE IF c = 45 \/ IsDigit(c) THEN LET r == NumTok(t, i) IN
-                                      IF r.ok THEN [ok |-> TRUE, next |-> r.next, v |-> V("num", r.num)] ELSE PFail
+    CASE At(t, i) = 123 -> IF At(t, SkipWs(t, i + 1)) = 125 THEN Ok(SkipWs(t, i + 1) + 1, V("obj", <<>>))
+                           ELSE PMembers(t, SkipWs(t, i + 1), <<>>)
+      [] At(t, i) = 91 -> IF At(t, SkipWs(t, i + 1)) = 93 THEN Ok(SkipWs(t, i + 1) + 1, V("arr", <<>>))
+                          ELSE PElems(t, SkipWs(t, i + 1), <<>>)
+      [] At(t, i) = 34 -> StrLoop(t, i + 1, <<>>)
+      [] At(t, i) = 116 -> IF Lit(t, i, <<116, 114, 117, 101>>) THEN Ok(i + 4, V("bool", <<1>>)) ELSE PFail
+      [] At(t, i) = 102 -> IF Lit(t, i, <<102, 97, 108, 115, 101>>) THEN Ok(i + 5, V("bool", <<0>>)) ELSE PFail
+      [] At(t, i) = 110 -> IF Lit(t, i, <<110, 117, 108, 108>>) THEN Ok(i + 4, VNull) ELSE PFail
+      [] At(t, i) = 45 \/ IsDigit(At(t, i)) -> NumVal(NumTok(t, i))
+      [] OTHER -> PFail
+(* i at the first character of an element; r = that element; j = first non-blank after it *)
+PElems(t, i, acc) == PElemsK(t, acc, PValue(t, i))
+PElemsK(t, acc, r) == IF ~r.ok THEN PFail ELSE PElemsJ(t, acc, r, SkipWs(t, r.next))
+PElemsJ(t, acc, r, j) ==
+    IF At(t, j) = 44 THEN PElems(t, SkipWs(t, j + 1), Append(acc, r.v))
+    ELSE IF At(t, j) = 93 THEN Ok(j + 1, V("arr", Append(acc, r.v)))
     ELSE PFail
-(* i at the first character of an element *)
-PElems(t, i, acc) ==
-    LET r == PValue(t, i) IN
-    IF ~r.ok THEN PFail
-    ELSE LET j == SkipWs(t, r.next) IN
-         IF At(t, j) = 44 THEN PElems(t, SkipWs(t, j + 1), Append(acc, r.v))
-         ELSE IF At(t, j) = 93 THEN [ok |-> TRUE, next |-> j + 1, v |-> V("arr", Append(acc, r.v))]
-         ELSE PFail
-(* i at the opening quote of a member name *)
-PMembers(t, i, acc) ==
-    IF At(t, i) # 34 THEN PFail
-    ELSE LET k == StrLoop(t, i + 1, <<>>) IN
-         IF ~k.ok THEN PFail
-         ELSE LET j == SkipWs(t, k.next) IN
-              IF At(t, j) # 58 THEN PFail
-              ELSE LET r == PValue(t, SkipWs(t, j + 1)) IN
-                   IF ~r.ok THEN PFail
-                   ELSE LET m == SkipWs(t, r.next) IN
-                        IF At(t, m) = 44 THEN PMembers(t, SkipWs(t, m + 1), Append(acc, <<k.v.x, r.v>>))
-                        ELSE IF At(t, m) = 125 THEN [ok |-> TRUE, next |-> m + 1, v |-> V("obj", Append(acc, <<k.v.x, r.v>>))]
-                        ELSE PFail
-Parse(t) == LET r == PValue(t, SkipWs(t, 1)) IN
-            IF r.ok /\ SkipWs(t, r.next) = Len(t) + 1 THEN [ok |-> TRUE, v |-> r.v] ELSE [ok |-> FALSE, v |-> Empty]
+(* i at the opening quote of a member name; k = the name; j = the colon; r = the value; m = first non-blank after it *)
+PMembers(t, i, acc) == IF At(t, i) # 34 THEN PFail ELSE PMemK(t, acc, StrLoop(t, i + 1, <<>>))
+PMemK(t, acc, k) == IF ~k.ok THEN PFail ELSE PMemC(t, acc, k, SkipWs(t, k.next))
+PMemC(t, acc, k, j) == IF At(t, j) # 58 THEN PFail ELSE PMemV(t, acc, k, PValue(t, SkipWs(t, j + 1)))
+PMemV(t, acc, k, r) == IF ~r.ok THEN PFail ELSE PMemE(t, acc, k, r, SkipWs(t, r.next))
+PMemE(t, acc, k, r, m) ==
+    IF At(t, m) = 44 THEN PMembers(t, SkipWs(t, m + 1), Append(acc, <<k.v.x, r.v>>))
+    ELSE IF At(t, m) = 125 THEN Ok(m + 1, V("obj", Append(acc, <<k.v.x, r.v>>)))
+    ELSE PFail
+ParseEnd(t, r) == IF r.ok /\ SkipWs(t, r.next) = Len(t) + 1 THEN [ok |-> TRUE, v |-> r.v] ELSE [ok |-> FALSE, v |-> Empty]
+Parse(t) == ParseEnd(t, PValue(t, SkipWs(t, 1)))
 
 -----------------------------------------------------------------------------
 (* value trees *)
 (* the harness' projection of a library value (numbers as printf renderings) -> value tree *)
+NumX(x) == [n15 |-> Numeral(x[1]), n17 |-> Numeral(x[2]), few |-> x[3], c15 |-> x[4]]
+(* the flat form used for very deep trees: nodes in document order as <<kind, number of children, payload>>, an    *)
+(* object member being a <<"key", 0, name>> entry followed by its value                                          *)
+RECURSIVE UFNode(_, _), UFArr(_, _, _, _), UFArrK(_, _, _, _), UFObj(_, _, _, _), UFObjK(_, _, _, _, _)
+UFNode(xs, i) ==
+    CASE xs[i][1] = "arr" -> UFArr(xs, i + 1, xs[i][2], <<>>)
+      [] xs[i][1] = "obj" -> UFObj(xs, i + 1, xs[i][2], <<>>)
+      [] xs[i][1] = "num" -> [v |-> V("num", NumX(xs[i][3])), next |-> i + 1]
+      [] OTHER -> [v |-> V(xs[i][1], xs[i][3]), next |-> i + 1]
+UFArr(xs, i, n, acc) == IF n = 0 THEN [v |-> V("arr", acc), next |-> i] ELSE UFArrK(xs, n, acc, UFNode(xs, i))
+UFArrK(xs, n, acc, r) == UFArr(xs, r.next, n - 1, Append(acc, r.v))
+UFObj(xs, i, n, acc) == IF n = 0 THEN [v |-> V("obj", acc), next |-> i] ELSE UFObjK(xs, n, acc, xs[i][3], UFNode(xs, i + 1))
+UFObjK(xs, n, acc, key, r) == UFObj(xs, r.next, n - 1, Append(acc, <<key, r.v>>))
 RECURSIVE Norm(_)
 Norm(p) ==
-    CASE p.t = "num" -> V("num", [n15 |-> Numeral(p.x[1]), n17 |-> Numeral(p.x[2]), few |-> p.x[3], c15 |-> p.x[4]])
+    CASE p.t = "flat" -> UFNode(p.x, 1).v
+      [] p.t = "num" -> V("num", NumX(p.x))
       [] p.t = "arr" -> V("arr", [i \in 1..Len(p.x) |-> Norm(p.x[i])])
       [] p.t = "obj" -> V("obj", [i \in 1..Len(p.x) |-> <<p.x[i][1], Norm(p.x[i][2])>>])
       [] OTHER -> V(p.t, p.x)
